@@ -141,7 +141,7 @@ class Engine:
         s.set('timeout', self.feas_timeout)
         s.add(*self.hyps())
         s.add(extra)
-        r = s.check()
+        r = guarded_check(s, self.feas_timeout)
         self.stats['feas_checks'] += 1
         self.stats['feas_s'] += time.time() - t
         return r != z3.unsat
@@ -169,19 +169,27 @@ class Engine:
         else:
             v = self._choose(cond)
         self.taken.append(v)
-        self.pc.append(cond if v else z3.Not(cond))
+        if not self._implied:
+            self.pc.append(cond if v else z3.Not(cond))
+        self._implied = False
         self.dcache[key] = (cond, v)
         return v
 
+    _implied = False
+
     def _choose(self, cond):
+        """pick a branch; when the other branch is *proved* infeasible the condition is implied by the
+        path so far and is not added to the path condition (keeps later queries small)"""
         ft = self.feasible(cond)
         ff = self.feasible(z3.Not(cond))
         if ft and ff:
             self.pending.append(self.taken + [False])
             return True
         if ft:
+            self._implied = True
             return True
         if ff:
+            self._implied = True
             return False
         raise Infeasible()
 
@@ -637,21 +645,34 @@ def to_smt2(hyps, neg_goal):
     return s.to_smt2()
 
 
+def guarded_check(s, timeout_ms):
+    """s.check() with a watchdog thread that interrupts z3 if it overruns its own timeout"""
+    import threading
+    wd = threading.Timer(timeout_ms / 1000.0 + 2.0, lambda: z3.main_ctx().interrupt())
+    wd.daemon = True
+    wd.start()
+    try:
+        return s.check()
+    except z3.Z3Exception:
+        return z3.unknown
+    finally:
+        wd.cancel()
+
+
 def z3_check(hyps, neg_goal, timeout_ms, tactic=None, seed=0):
-    """returns ('unsat'|'sat'|'unknown', model|None, seconds)"""
+    """returns ('unsat'|'sat'|'unknown', model|None, seconds); a watchdog interrupts z3 if it overruns"""
+    import threading
     t = time.time()
     if tactic:
         s = z3.Tactic(tactic).solver()
     else:
         s = z3.Solver()
     s.set('timeout', int(timeout_ms))
-    try:
+    if not tactic:
         s.set('random_seed', seed)
-    except z3.Z3Exception:
-        pass
     s.add(*hyps)
     s.add(neg_goal)
-    r = s.check()
+    r = guarded_check(s, timeout_ms)
     m = None
     if r == z3.sat:
         m = s.model()
